@@ -1,5 +1,6 @@
 """C02 — every instruction word executes as the ISA prescribes."""
 import json
+import re
 import os
 from ..facts import callee_of, short, sp_file_line, expr_str, expr_walk, op_local, place_is_local
 from .. import kit, bits, formula, tables
@@ -67,6 +68,10 @@ def run(ctx):
         if sp.get("unimplemented"):
             continue
         f = ctx.fn(h)
+        # the stack pointer (R7) is read and written by PUSH/POP/CALL/RETS, in the handler itself or in its two helpers: judged as one piece
+        helpers_ = {c_ for b_, t_, c_ in f.calls() if c_ and re.search(r"RunState::(push_val|pop_val)$", c_)}
+        if helpers_:
+            f = kit.inlined_view(prog, f, helpers_)
         got = bits.decode_uses(ctx, f)
         want = {tuple(u) for u in sp["uses"]}
         if (9, 3, False, "cc-mask") in want and (9, 3, False, "cc-mask") not in got:
